@@ -25,10 +25,16 @@ type c19Cfg struct {
 	Strategy  string `json:"strategy"`
 	TimeoutUs int    `json:"block_timeout_us"`
 	Ceiling   int    `json:"ceiling"`
+	Prefill   int    `json:"prefill"`        // rows emitted by the main thread before the producers start (buffer already full)
+	Threshold float64 `json:"trigger_threshold"` // expansion trigger threshold (default 0.8)
 }
 
 func (c c19Cfg) name() string {
-	return fmt.Sprintf("p%d-r%d-buf%d-%s-to%d-ceil%d", c.Producers, c.Rows, c.Buf, c.Strategy, c.TimeoutUs, c.Ceiling)
+	n := fmt.Sprintf("p%d-r%d-buf%d-%s-to%d-ceil%d", c.Producers, c.Rows, c.Buf, c.Strategy, c.TimeoutUs, c.Ceiling)
+	if c.Prefill > 0 {
+		n += fmt.Sprintf("-prefill%d-thr%v", c.Prefill, c.Threshold)
+	}
+	return n
 }
 
 func c19Configs(tier string) []c19Cfg {
@@ -45,6 +51,11 @@ func c19Configs(tier string) []c19Cfg {
 			}
 		}
 	}
+	// buffer pre-filled by the main thread, then 2 producers x 1 row: the expansion happens while
+	// the consumer is draining; threshold 0.5 lets a half-full sample still expand (stale length)
+	out = append(out, c19Cfg{Producers: 2, Rows: 1, Buf: 2, Strategy: "expand", Ceiling: 4, Prefill: 2, Threshold: 0.5},
+		c19Cfg{Producers: 2, Rows: 1, Buf: 2, Strategy: "expand", Ceiling: 3, Prefill: 2, Threshold: 0.8},
+		c19Cfg{Producers: 2, Rows: 1, Buf: 2, Strategy: "drop", Prefill: 2})
 	return out
 }
 
@@ -69,6 +80,9 @@ func c19Run(cfg c19Cfg) explore.RunFunc {
 				perf.OverflowConfig.ExpansionConfig.GrowthFactor = 1.5
 				perf.OverflowConfig.ExpansionConfig.MinIncrement = 1
 				perf.OverflowConfig.ExpansionConfig.TriggerThreshold = 0.8
+				if cfg.Threshold > 0 {
+					perf.OverflowConfig.ExpansionConfig.TriggerThreshold = cfg.Threshold
+				}
 			}
 			ssql := streamsql.New(streamsql.WithCustomPerformance(perf), streamsql.WithLogger(logger.NewDiscardLogger()))
 			if err := ssql.Execute("SELECT id FROM stream"); err != nil {
@@ -80,6 +94,9 @@ func c19Run(cfg c19Cfg) explore.RunFunc {
 					o.processed = append(o.processed, toInt(r["id"]))
 				}
 			})
+			for j := 0; j < cfg.Prefill; j++ {
+				ssql.Emit(map[string]any{"id": 900 + j})
+			}
 			var wg vsync.WaitGroup
 			for p := 0; p < cfg.Producers; p++ {
 				p := p
@@ -109,7 +126,7 @@ func c19Run(cfg c19Cfg) explore.RunFunc {
 }
 
 func c19Oracle(cfg c19Cfg, res *sched.Result, o *c19Obs) *explore.Failure {
-	total := cfg.Producers * cfg.Rows
+	total := cfg.Producers*cfg.Rows + cfg.Prefill
 	fail := func(kind, what string) *explore.Failure {
 		return &explore.Failure{Signature: fmt.Sprintf("C19|%s|strategy=%s|expanded=%v", kind, cfg.Strategy, o.capEnd != int64(cfg.Buf)), What: what,
 			Expected: fmt.Sprintf("processed+dropped == %d, ids distinct, per-producer order", total),
@@ -194,6 +211,12 @@ func (c19) Plan(tier string) []fw.Unit {
 		bound := map[int]int{1: 2, 2: 1, 3: 0}[cfg.Producers]
 		if tier == "thorough" {
 			bound = map[int]int{1: 3, 2: 2, 3: 1}[cfg.Producers]
+		}
+		if cfg.Prefill > 0 {
+			bound = 2
+			if tier == "thorough" {
+				bound = 3
+			}
 		}
 		if only := os.Getenv("VERIF_ONLY"); only != "" && !strings.Contains(sc.Name, only) {
 			continue
